@@ -262,6 +262,16 @@ pub fn property(v: &RefValue) -> Result<(), String> {
 	if b != a || b.compact_print().to_string() != expected {
 		return Err("canonicalize_with(buffer) disagrees with canonicalize()".into());
 	}
+	// the same value arriving through every other construction route (push, parsing of the compact and of an
+	// escaped rendering, clone, From/FromIterator, Extend, the serde bridges where they are exact copies)
+	for route in 1..9u8 {
+		let mut c = v.to_value_route(route);
+		c.canonicalize();
+		let got = c.compact_print().to_string();
+		if got != expected {
+			return Err(format!("value built through construction route {route}: canonicalize + compact_print = {got:?}, RFC 8785 canonical form = {expected:?}"));
+		}
+	}
 	if let Value::Object(mut o) = v.to_value() {
 		o.canonicalize();
 		if Value::Object(o.clone()) != a {
